@@ -69,13 +69,16 @@ class op_budget:
     def __init__(self, seconds: float):
         self.seconds = seconds
 
+    # CPU time of this process, not wall time: a descheduled worker on a busy
+    # host must not look like a hang (nothing in mathy_core blocks, so a real
+    # hang burns CPU)
     def __enter__(self):
-        self.old = signal.signal(signal.SIGALRM, _on_alarm)
-        signal.setitimer(signal.ITIMER_REAL, self.seconds)
+        self.old = signal.signal(signal.SIGPROF, _on_alarm)
+        signal.setitimer(signal.ITIMER_PROF, self.seconds)
 
     def __exit__(self, *exc):
-        signal.setitimer(signal.ITIMER_REAL, 0)
-        signal.signal(signal.SIGALRM, self.old)
+        signal.setitimer(signal.ITIMER_PROF, 0)
+        signal.signal(signal.SIGPROF, self.old)
         return False
 
 
